@@ -2,11 +2,12 @@ import TinyVerif.Model.Mutex
 import TinyVerif.Drv.Common
 open TinyVerif TinyVerif.Mutex
 
-/-- `l<k>` / `t<k>` -/
+/-- `l<k>` / `t<k>` / `d0` (`{:?}` of the mutex: the library's own try_lock + guard drop = `t0`) -/
 def parseTxn (w : String) : Option Txn :=
   match w.toList with
   | 'l' :: r => (String.ofList r).toNat?.map (fun k => ⟨false, k⟩)
   | 't' :: r => (String.ofList r).toNat?.map (fun k => ⟨true, k⟩)
+  | ['d', '0'] => some ⟨true, 0⟩
   | _ => none
 
 def parseProg (ws : List String) : Option (List Txn) := ws.mapM parseTxn
